@@ -7,7 +7,7 @@ CONSTANTS
   FileSeq <- Seq3
   MaxStmts = 2
   GenKinds = {"use", "forward", "import", "loadcss"}
-  GenSpellings = {"plain"}
+  GenSpellings = {"plain", "ext"}
   DevChoices <- DevIdeal
   MaxFaultAt = 6
 INVARIANTS UrlsResolve FaultReported NoErrWithoutFault LockDiscipline DepthBound LoopOnlyOnCycle NeverOverflow InitOnce OkOnlyAcyclic Emit
